@@ -55,7 +55,11 @@ func CloneExpr(e Expr) Expr {
 	case *MethCall:
 		return &MethCall{Obj: CloneExpr(x.Obj), Name: x.Name, Args: cloneExprs(x.Args)}
 	case *Func:
-		return cloneFunc(x)
+		c := cloneFunc(x)
+		if funcHook != nil {
+			return funcHook(x, c)
+		}
+		return c
 	case *Bin:
 		return &Bin{Op: x.Op, L: CloneExpr(x.L), R: CloneExpr(x.R)}
 	case *Un:
